@@ -17,6 +17,8 @@
 //	  fail=0|1          (first) the handshake fails: wrong server name
 //	  closeafter=<k> closers=<n>   (close) n goroutines call Close once k Writes have returned
 //	  slen=<n> rbufs=<b.b.b>       (read) one stream of n bytes, one reader goroutine per buffer size
+//	  scen=silent side=c|s call=hs|read    a Handshake / first Read parked on a peer that never answers, then Close
+//	  scen=switch trials=<t> n=<w>         t first uses of a pa connection by 1 Read + w Writes + a ProtectedConn poller
 //	  scen=hsclose hs=<n> closeafter=<k>   Close on the client after k yields, racing with the first handshake
 //
 // Payload bytes are a fixed function of (writer, call, index) that the Lean oracle recomputes;
@@ -69,6 +71,8 @@ type spec struct {
 	closeAfter, closers int
 	slen                int
 	rbufs               []int
+	side, call          string // silent
+	trials, n           int    // switch
 }
 
 func groups(s string) [][]int {
@@ -128,6 +132,10 @@ func (s spec) String() string {
 		b += fmt.Sprintf(" cw=%s closeafter=%d closers=%d", showGroups(s.cw), s.closeAfter, s.closers)
 	case "hsclose":
 		b += fmt.Sprintf(" hs=%d closeafter=%d", s.hs, s.closeAfter)
+	case "silent":
+		b += fmt.Sprintf(" side=%s call=%s", s.side, s.call)
+	case "switch":
+		b += fmt.Sprintf(" trials=%d n=%d", s.trials, s.n)
 	case "read":
 		b += fmt.Sprintf(" slen=%d rbufs=%s", s.slen, showInts(s.rbufs))
 	case "dgram":
@@ -157,6 +165,16 @@ func parse(desc string) spec {
 	s.slen = hx.KVInt(desc, "slen")
 	v, _ = hx.KV(desc, "rbufs")
 	s.rbufs = ints(v)
+	s.side, _ = hx.KV(desc, "side")
+	s.call, _ = hx.KV(desc, "call")
+	s.trials = hx.KVInt(desc, "trials")
+	s.n = hx.KVInt(desc, "n")
+	if s.trials < 1 {
+		s.trials = 1
+	}
+	if s.n < 1 {
+		s.n = 1
+	}
 	if s.procs < 1 {
 		s.procs = 1
 	}
@@ -791,9 +809,63 @@ func (l *oneShotListener) Accept() (net.Conn, error) {
 func (l *oneShotListener) Close() error   { return nil }
 func (l *oneShotListener) Addr() net.Addr { return &net.TCPAddr{IP: net.IPv4(127, 0, 0, 1), Port: 443} }
 
-// scenSwitch: first use of a pa.ProtocolSwitchServerConn from two goroutines at once (a
-// full-duplex server: one goroutine reads requests, another writes), TLCP client.
-func scenSwitch(sp spec, y *yielder, o *obs) {
+// spinBarrier releases n goroutines at (almost) the same instant.
+type spinBarrier struct {
+	n, arrived int32
+}
+
+func (b *spinBarrier) wait() {
+	atomic.AddInt32(&b.arrived, 1)
+	for atomic.LoadInt32(&b.arrived) < b.n {
+		runtime.Gosched()
+	}
+}
+
+type switchTrial struct {
+	res     []string // server reader, server writers…, client write, client read
+	wres    []wres
+	stream  []byte // what the client received
+	echo    bool
+	same    bool
+	dead    bool
+	panicky string
+}
+
+func (t *switchTrial) suspect(n int) bool {
+	if t.dead || t.panicky != "" || !t.echo || !t.same {
+		return true
+	}
+	for _, r := range t.res {
+		if r != "ok" {
+			return true
+		}
+	}
+	// cheap screen only (the verdict is the oracle's): n blocks of 64 bytes, each one of the payloads
+	if len(t.stream) != 64*n {
+		return true
+	}
+	seen := map[int]bool{}
+	for i := 0; i < n; i++ {
+		blk := t.stream[64*i : 64*i+64]
+		hit := -1
+		for w := 0; w < n; w++ {
+			if bytes.Equal(blk, Payload(10+w, 0, 64)) {
+				hit = w
+			}
+		}
+		if hit < 0 || seen[hit] {
+			return true
+		}
+		seen[hit] = true
+	}
+	return false
+}
+
+// oneSwitchTrial: a TLCP client connects to a pa listener; the server handler makes its FIRST
+// calls on the accepted connection from several goroutines released together: one Read, n
+// Writes of 64 bytes, one ProtectedConn poller. The connection behind it must be built once.
+func oneSwitchTrial(sp spec, y *yielder) *switchTrial {
+	t := &switchTrial{}
 	ce, se := pair.StreamPipe()
 	ce.OnWrite = func(d []byte) [][]byte { y.maybe(); return [][]byte{d} }
 	inner := &oneShotListener{ch: make(chan net.Conn, 1)}
@@ -801,63 +873,167 @@ func scenSwitch(sp spec, y *yielder, o *obs) {
 	ln := pa.NewListener(inner, pair.TServer(), nil)
 	sc, err := ln.Accept()
 	if err != nil {
-		o.add("setup", "accept-failed")
-		return
+		t.res = []string{"accept-failed"}
+		return t
 	}
+	psc, _ := sc.(*pa.ProtocolSwitchServerConn)
 	c := tlcp.Client(ce, pair.TClient())
-	start := make(chan struct{})
+	n := sp.n
+	bar := &spinBarrier{n: int32(n + 2)}
 	var g group
-	req, resp := Payload(1, 0, 300), Payload(2, 0, 500)
+	req := Payload(1, 0, 300)
 	var sGot, cGot []byte
-	var sw, sr, cw, cr string
+	res := make([]string, n+3)
+	seenConn := make([]net.Conn, n+2)
+	var mu sync.Mutex
 	g.goFn(func() { // server reader
-		<-start
+		bar.wait()
 		buf := make([]byte, 300)
 		_, err := io.ReadFull(sc, buf)
-		sGot, sr = buf, errTok(err)
+		sGot, res[0] = buf, errTok(err)
+		if psc != nil {
+			seenConn[0] = psc.ProtectedConn()
+		}
 	})
-	g.goFn(func() { // server writer
-		<-start
-		y.maybe()
-		_, err := sc.Write(resp)
-		sw = errTok(err)
-	})
-	g.goFn(func() { // ProtectedConn observer
-		<-start
-		for i := 0; i < 50; i++ {
-			if psc, ok := sc.(*pa.ProtocolSwitchServerConn); ok {
-				_ = psc.ProtectedConn()
+	for w := 0; w < n; w++ {
+		w := w
+		g.goFn(func() { // server writers
+			bar.wait()
+			k, err := sc.Write(Payload(10+w, 0, 64))
+			res[1+w] = errTok(err)
+			mu.Lock()
+			t.wres = append(t.wres, wres{10 + w, 0, k, errTok(err)})
+			mu.Unlock()
+			if psc != nil {
+				seenConn[1+w] = psc.ProtectedConn()
+			}
+		})
+	}
+	g.goFn(func() { // ProtectedConn poller: nil until detected, then always the same object
+		bar.wait()
+		var first net.Conn
+		okSame := true
+		for i := 0; i < 200 && psc != nil; i++ {
+			if pc := psc.ProtectedConn(); pc != nil {
+				if first == nil {
+					first = pc
+				} else if pc != first {
+					okSame = false
+				}
 			}
 			runtime.Gosched()
 		}
+		if !okSame {
+			first = nil
+		}
+		seenConn[n+1] = first
 	})
-	g.goFn(func() {
-		<-start
+	g.goFn(func() { // client
 		_, err := c.Write(req)
-		cw = errTok(err)
-		buf := make([]byte, 500)
-		_, err = io.ReadFull(c, buf)
-		cGot, cr = buf, errTok(err)
+		res[n+1] = errTok(err)
+		buf := make([]byte, 64*n)
+		k, err := io.ReadFull(c, buf)
+		cGot, res[n+2] = buf[:k], errTok(err)
 	})
-	close(start)
-	if !g.wait(watchdog) {
-		o.dead = true
+	if !g.wait(5 * time.Second) {
+		t.dead = true
 		ce.Close()
 		se.Close()
 		g.wait(2 * time.Second)
 	}
-	o.add("res", strings.Join([]string{sr, sw, cw, cr}, ","))
-	echo := "0"
-	if bytes.Equal(sGot, req) && bytes.Equal(cGot, resp) {
-		echo = "1"
+	t.res = res
+	t.stream = cGot
+	t.echo = bytes.Equal(sGot, req)
+	t.same = true
+	var ref net.Conn
+	if psc != nil {
+		ref = psc.ProtectedConn()
 	}
-	o.add("echo", echo)
+	for i, pc := range seenConn {
+		if pc == nil && i == n+1 {
+			continue // the poller may have finished before detection
+		}
+		if pc != ref {
+			t.same = false
+		}
+	}
 	if len(g.panics) > 0 {
-		o.panic = g.panics[0]
+		t.panicky = g.panics[0]
 	}
-	if !o.dead {
+	if !t.dead {
 		c.Close()
 		sc.Close()
+	}
+	return t
+}
+
+// scenSwitch runs `trials` such first uses and reports the first suspicious one (else the last).
+func scenSwitch(sp spec, y *yielder, o *obs) {
+	var t *switchTrial
+	ran := 0
+	for i := 0; i < sp.trials; i++ {
+		t = oneSwitchTrial(sp, y)
+		ran++
+		if t.suspect(sp.n) {
+			break
+		}
+	}
+	o.add("ran", strconv.Itoa(ran))
+	o.add("res", strings.Join(t.res, ","))
+	o.add("swres", showW(t.wres))
+	o.add("sstream", hx.Hex(t.stream))
+	b := func(v bool) string {
+		if v {
+			return "1"
+		}
+		return "0"
+	}
+	o.add("echo", b(t.echo))
+	o.add("same", b(t.same))
+	o.dead = t.dead
+	o.panic = t.panicky
+}
+
+// scenSilent: a Handshake (or a first Read) is parked on a peer that never answers; Close from
+// another goroutine must return and the parked call must fail.
+func scenSilent(sp spec, y *yielder, o *obs) {
+	e := mkPair(sp, y)
+	active := e.c
+	if sp.side == "s" {
+		active = e.s
+	}
+	var g, cg group
+	callRes, closeRes := "-", "-"
+	g.goFn(func() {
+		if sp.call == "read" {
+			buf := make([]byte, 16)
+			_, err := active.Read(buf)
+			callRes = errTok(err)
+		} else {
+			callRes = errTok(active.Handshake())
+		}
+	})
+	time.Sleep(3 * time.Millisecond) // let it park in the transport read
+	cg.goFn(func() { closeRes = errTok(active.Close()) })
+	okc := cg.wait(5 * time.Second)
+	okg := okc && g.wait(5*time.Second)
+	if !okc || !okg {
+		o.dead = true
+		e.abort()
+		g.wait(2 * time.Second)
+		cg.wait(2 * time.Second)
+		if !okc {
+			closeRes = "-"
+		} else {
+			callRes = "-"
+		}
+	}
+	o.add("call", callRes)
+	o.add("close", closeRes)
+	for _, gr := range []*group{&g, &cg} {
+		if len(gr.panics) > 0 {
+			o.panic = gr.panics[0]
+		}
 	}
 }
 
@@ -958,6 +1134,8 @@ func runCase(desc string, rl *raceLog) string {
 				scenDgram(sp, y, o)
 			case "hsclose":
 				scenHsClose(sp, y, o)
+			case "silent":
+				scenSilent(sp, y, o)
 			case "switch":
 				scenSwitch(sp, y, o)
 			default:
@@ -1019,10 +1197,23 @@ func gen(o hx.Opts) []string {
 	r := hx.NewRand(o.Seed)
 	var cases []string
 	add := func(s spec) { cases = append(cases, s.String()) }
-	// witnesses first: first use of the protocol switch conn from two goroutines (F20), both
-	// scheduler widths
-	add(spec{stack: "pa", scen: "switch", procs: 4, seed: 1, yield: 30})
-	add(spec{stack: "pa", scen: "switch", procs: 1, seed: 2, yield: 60})
+	// witnesses first: first use of the protocol switch conn from several goroutines at once (F20:
+	// unlocked read of `wrapped`; and the double-checked detect must build the connection once)
+	swTrials := 120
+	if o.Tier == "thorough" {
+		swTrials = 1500
+	}
+	for i, pr := range []int{4, 8, 16, 2} {
+		add(spec{stack: "pa", scen: "switch", procs: pr, seed: uint64(1 + i), yield: []int{0, 30}[i%2], trials: swTrials * o.Scale, n: 4})
+	}
+	// a call parked on a silent peer: Close must return and unblock it
+	for _, st := range []string{"tlcp", "dtlcp"} {
+		for _, side := range []string{"c", "s"} {
+			for _, call := range []string{"hs", "read"} {
+				add(spec{stack: st, scen: "silent", procs: 4, seed: 9, side: side, call: call})
+			}
+		}
+	}
 	// fixed corner cases: one payload spanning several records against small ones, both stacks
 	for _, st := range []string{"tlcp", "dtlcp"} {
 		add(spec{stack: st, scen: "write", procs: 4, seed: 3, yield: 50, cw: [][]int{{40000}, {7, 7, 7, 7, 7, 7}, {1, 16384, 16385}}, sw: [][]int{{20000}, {3, 3, 3}}, hs: 0, misc: 1})
@@ -1097,7 +1288,8 @@ func gen(o hx.Opts) []string {
 			}
 		}
 		if i%2 == 0 {
-			add(spec{stack: "pa", scen: "switch", procs: hx.Pick(r, procs), seed: r.U64() % 1000000, yield: hx.Pick(r, []int{0, 40, 80})})
+			add(spec{stack: "pa", scen: "switch", procs: hx.Pick(r, procs), seed: r.U64() % 1000000, yield: hx.Pick(r, []int{0, 40, 80}), trials: 20, n: 1 + r.Intn(5)})
+			add(spec{stack: hx.Pick(r, []string{"tlcp", "dtlcp"}), scen: "silent", procs: hx.Pick(r, procs), seed: r.U64() % 1000000, side: hx.Pick(r, []string{"c", "s"}), call: hx.Pick(r, []string{"hs", "read"})})
 		}
 	}
 	return cases
